@@ -44,7 +44,13 @@ def d_dur():
     def bad(I, n):
         return list([b'-1', b'NaN', b'x', b'inf', b'1e30'][I.ctx.choose(5, n + '_bad')])
     return good, bad
-def d_enum(pairs, bads=(b'x', b'')):
+# every spelling that is valid for *some* enumerated field (plus near misses): out of domain for a field unless it is one of its own
+ALL_SPELLINGS = [b'0', b'1', b'2', b'true', b'false', b'on', b'off', b'oneshot', b'play', b'pause', b'stop', b'track', b'album', b'auto',
+                 b'Play', b'ONESHOT', b'1 ', b' 0', b'01', b'x', b'']
+def d_enum(pairs, bads=None):
+    if bads is None:
+        own = {t for t, _ in pairs}
+        bads = tuple(x for x in ALL_SPELLINGS if x not in own)
     def good(I, n):
         t, v = pairs[I.ctx.choose(len(pairs), n + '_enum')]
         return list(t), ('enum', v)
@@ -56,7 +62,7 @@ def d_str():
         t = [b'text', b'', b'a: b'][I.ctx.choose(3, n + '_str')]
         return list(t), t
     return good, None
-BOOL_D = d_enum([(b'0', False), (b'1', True)], (b'2', b'true', b''))
+BOOL_D = d_enum([(b'0', False), (b'1', True)])
 
 # status: key -> (domain, required)
 STATUS = {
@@ -398,6 +404,56 @@ def check_seq(I, P, ctx, entry, r, exp):
             got.append(bytes(as_items(x)))
         if got != exp:
             return 'values() yields %r instead of %r' % (got, exp)
+        # both value iterators implement the whole double-ended / exact-size surface by hand: a symbolic script of operations is
+        # compared with a list model (as C19 does for the protocol-level iterators)
+        from models_core import deep_clone as _dc
+        LT = 'mpd_client::responses::list::'
+        for owned in (I.ctx.choose(2, 'lowned') == 1,):
+            T = LT + ('ListValuesIntoIter' if owned else "ListValuesIter<'_>")
+            if owned:
+                it = I.call_repo('<mpd_client::responses::list::List<0> as IntoIterator>::into_iter', [_dc(v)])
+            else:
+                it = I.call_repo(LT + 'List::<0>::values', [ref_to(v)])
+            cell = ValLoc(it)
+            lo, hi = 0, len(exp)
+            txt = lambda x: 'end' if x.variant == 'None' else bytes(as_items(x.fields[0])).decode('latin1')
+            script = []
+            for step in range(2):
+                op = I.ctx.choose(5, 'lop%d_%d' % (owned, step))
+                if op == 0:
+                    script.append('n'); r = I.call_repo('<%s as Iterator>::next' % T, [Ref(cell)])
+                    want = exp[lo].decode('latin1') if lo < hi else 'end'; lo += 1 if lo < hi else 0
+                elif op == 1:
+                    script.append('b'); r = I.call_repo('<%s as DoubleEndedIterator>::next_back' % T, [Ref(cell)])
+                    want = exp[hi - 1].decode('latin1') if lo < hi else 'end'; hi -= 1 if lo < hi else 0
+                elif op in (2, 3):
+                    k = I.ctx.choose(2, 'lk%d_%d' % (owned, step))
+                    if op == 2:
+                        script.append('N%d' % k); r = I.call_repo('<%s as Iterator>::nth' % T, [Ref(cell), k])
+                        want = exp[lo + k].decode('latin1') if lo + k < hi else 'end'; lo = min(hi, lo + k + 1)
+                    else:
+                        script.append('B%d' % k); r = I.call_repo('<%s as DoubleEndedIterator>::nth_back' % T, [Ref(cell), k])
+                        want = exp[hi - 1 - k].decode('latin1') if hi - 1 - k >= lo else 'end'; hi = max(lo, hi - k - 1)
+                else:
+                    script.append('s')
+                    h = I.call_repo('<%s as Iterator>::size_hint' % T, [Ref(cell)])
+                    ln = I.call_path('<%s as ExactSizeIterator>::len' % T, [Ref(cell)])
+                    if h.items[0] != hi - lo or h.items[1].variant != 'Some' or h.items[1].fields[0] != hi - lo or ln != hi - lo:
+                        return '%s: size_hint/len = %r/%s with %d values remaining (after %s)' % ('into_iter()' if owned else 'values()', h, ln, hi - lo, ' '.join(script))
+                    continue
+                if txt(r) != want:
+                    I._lops = (owned, list(script))
+                    return '%s: %s yields %r, the list model says %r' % ('into_iter()' if owned else 'values()', ' '.join(script), txt(r), want)
+            fin = I.ctx.choose(2, 'lfin%d' % owned)
+            if fin == 0:
+                c_ = I.call_repo('<%s as Iterator>::count' % T, [cell.get()])
+                if c_ != hi - lo:
+                    return '%s: count after %s is %s, %d values remain' % ('into_iter()' if owned else 'values()', ' '.join(script), c_, hi - lo)
+            else:
+                r = I.call_repo('<%s as Iterator>::last' % T, [cell.get()])
+                want = exp[hi - 1].decode('latin1') if lo < hi else 'end'
+                if txt(r) != want:
+                    return '%s: last after %s yields %r, the list model says %r' % ('into_iter()' if owned else 'values()', ' '.join(script), txt(r), want)
         raw = I.call_repo('mpd_client::responses::list::List::<0>::into_raw_values', [v])
         got = [(tag_display(t.items[0]), bytes(as_items(t.items[1]))) for t in raw.v]
         return None if got == [('Artist', e) for e in exp] else 'raw values %r' % (got,)
@@ -555,8 +611,28 @@ def ref_obs(entry, wire):
     if entry == 'List0':
         vals = [v for k, v in f]
         hx = lambda v: hexs(v.encode())
+        def scripts(vals):
+            # the operation scripts the native executor runs on both value iterators (every pair of operations, then count / last)
+            out = []
+            ops = ['n', 'b', 'N0', 'N1', 'B0', 'B1']
+            for a in ops:
+                for b_ in ops:
+                    lo, hi = 0, len(vals)
+                    obs = []
+                    for op in (a, b_):
+                        if op == 'n':
+                            obs.append(hx(vals[lo]) if lo < hi else 'end'); lo += 1 if lo < hi else 0
+                        elif op == 'b':
+                            obs.append(hx(vals[hi - 1]) if lo < hi else 'end'); hi -= 1 if lo < hi else 0
+                        elif op[0] == 'N':
+                            k = int(op[1]); obs.append(hx(vals[lo + k]) if lo + k < hi else 'end'); lo = min(hi, lo + k + 1)
+                        else:
+                            k = int(op[1]); obs.append(hx(vals[hi - 1 - k]) if hi - 1 - k >= lo else 'end'); hi = max(lo, hi - k - 1)
+                    out.append('%s,%s:%s,%s len=%d last=%s' % (a, b_, obs[0], obs[1], hi - lo, hx(vals[hi - 1]) if lo < hi else 'end'))
+            return out
         return (['value=' + hx(v) for v in vals] + ['len=%d count=%d last=%s' % (len(vals), len(vals), hx(vals[-1]) if vals else 'none')] + ['rvalue=' + hx(v) for v in reversed(vals)] +
-                ['gvalue=' + hx(v) for v in vals] + ['raw=%s:%s' % (hexs(b'Artist'), hx(v)) for v in vals] + ['ovalue=' + hx(v) for v in vals])
+                ['gvalue=' + hx(v) for v in vals] + ['raw=%s:%s' % (hexs(b'Artist'), hx(v)) for v in vals] + ['script ' + x for x in scripts(vals)] + ['oscript ' + x for x in scripts(vals)] +
+                ['ovalue=' + hx(v) for v in vals])
     if entry == 'List1':
         out = []
         raw = []
